@@ -114,6 +114,16 @@ func runC19(c *core.Ctx) *core.Violation {
 			e := NewSyncEnv(c, s, lc)
 			e.Src.RDB, _ = smallRDB(t, 2)
 			e.Src.Stream, e.Src.Release = stream, rel
+			switch t.Choose(8) {
+			case 6:
+				e.Tgt.AuthUnknown = true // the target rejects AUTH and echoes its arguments
+				c.Probe("auth_rejected_with_echo")
+			case 7:
+				if srcPassword != "" {
+					e.Src.AuthUnknown = true
+					c.Probe("auth_rejected_with_echo")
+				}
+			}
 			cmd := &run.CmdSync{}
 			metric.CreateMetric(cmd)
 			start := func() {
@@ -170,8 +180,12 @@ func runC19(c *core.Ctx) *core.Violation {
 			net := simnet.New(s)
 			tgt := modelredis.NewServer(s, net, "target", tgtAddr)
 			tgt.Password = tgtPassword
-			if t.Choose(3) == 2 {
+			switch t.Choose(4) {
+			case 2:
 				tgt.Plant(0, "rdbkey:0", &modelredis.Entry{Val: &rc.Value{Kind: rc.KString, Str: []byte("busy")}}) // a failing restore path
+			case 3:
+				tgt.AuthUnknown = true
+				c.Probe("auth_rejected_with_echo")
 			}
 			proc := s.NewProc("tool")
 			done := false
@@ -220,8 +234,12 @@ func runC19(c *core.Ctx) *core.Violation {
 			tgt := modelredis.NewServer(s, net, "target", tgtAddr)
 			tgt.Password = tgtPassword
 			plantCheckpoint(tgt, t.Choose(3), srcAddr, "abc", int64(t.Choose(1000)), t.Choose(2))
-			if t.Choose(3) == 2 {
+			switch t.Choose(4) {
+			case 2:
 				tgt.Password = "another-password-so-that-auth-fails" // the AUTH failure path
+			case 3:
+				tgt.AuthUnknown = true // AUTH rejected by a server that echoes the arguments of what it does not understand
+				c.Probe("auth_rejected_with_echo")
 			}
 			proc := s.NewProc("tool")
 			done := false
@@ -255,8 +273,14 @@ func runC19(c *core.Ctx) *core.Violation {
 						return "# Replication\r\nrole:master\r\n"
 					}
 				}
-				if i == 2 && t.Choose(2) == 1 {
-					sv.Password = "different" // AUTH fails on this node
+				if i == 2 {
+					switch t.Choose(3) {
+					case 1:
+						sv.Password = "different" // AUTH fails on this node
+					case 2:
+						sv.AuthUnknown = true
+						c.Probe("auth_rejected_with_echo")
+					}
 				}
 			}
 			node := slot.SyncNode{Source: "10.1.0.1:7000", SourcePassword: srcPassword, Slaves: []string{"10.1.0.2:7000", "10.1.0.3:7000", "10.1.0.4:7000"}, Target: []string{tgtAddr}, TargetPassword: tgtPassword}
@@ -318,7 +342,7 @@ func init() {
 			"sentinels are 17 characters from an alphabet without digits 0/1 and letters l/I/O, so an accidental match is practically impossible",
 		},
 		RealVsStub: "real: run.CmdSync/CmdRestore/CmdRump mains, dbSync, checkpoint, slotsupervisor, metric.NewMetricRest, conf.GetSafeOptions, pkg/libs/log; simulated: TCP, peers (AUTH required), clock, scheduling, connection resets, process restart",
-		ProbeNames: []string{"scenario_sync", "scenario_sync-target-cut", "scenario_sync-source-cut", "scenario_restore", "scenario_rump", "scenario_checkpoint", "scenario_supervisor", "level_debug", "level_error"},
+		ProbeNames: []string{"auth_rejected_with_echo", "scenario_sync", "scenario_sync-target-cut", "scenario_sync-source-cut", "scenario_restore", "scenario_rump", "scenario_checkpoint", "scenario_supervisor", "level_debug", "level_error"},
 		FaultNames: []string{"conn_reset"},
 	})
 }
